@@ -127,7 +127,7 @@ def _reach_blocks(b, start):
     return seen
 
 
-def _variant_edges(b, local, idx, depth=0):
+def _variant_edges(b, local, idx, depth=0, conveyors=False):
     """[(switch block, target)] taken when the enum value in `local` is variant number idx (followed through moves and `?`)"""
     out = []
     if depth > 3:
@@ -147,11 +147,15 @@ def _variant_edges(b, local, idx, depth=0):
                         elif len(sw['vals']) >= 1:
                             out.append((sbi, sw['otherwise']))
             elif rv['k'] == 'use' and rv['op']['k'] in ('copy', 'move') and not rv['op']['pl']['p'] and rv['op']['pl']['l'] == local:
-                out += _variant_edges(b, st['pl']['l'], idx, depth + 1)
+                out += _variant_edges(b, st['pl']['l'], idx, depth + 1, conveyors)
         t = b.blocks[bi]['term']
         if t['k'] == 'call' and 'q' in t['callee'] and t['callee']['q'] == 'core::ops::try_trait::Try::branch' and t['args'] and \
                 t['args'][0]['k'] in ('copy', 'move') and not t['args'][0]['pl']['p'] and t['args'][0]['pl']['l'] == local and not t['dest']['p']:
-            out += _variant_edges(b, t['dest']['l'], idx, depth + 1)     # Err -> Break(1), Ok -> Continue(0)
+            out += _variant_edges(b, t['dest']['l'], idx, depth + 1, conveyors)     # Err -> Break(1), Ok -> Continue(0)
+        elif conveyors and t['k'] == 'call' and 'q' in t['callee'] and t['args'] and t['args'][0]['k'] in ('copy', 'move') and \
+                not t['args'][0]['pl']['p'] and t['args'][0]['pl']['l'] == local and not t['dest']['p'] and \
+                callee_q(t).split('::')[-1] in ('context', 'with_context', 'map_err', 'map') and b.lty(t['dest']['l']).get('adt') == b.lty(local).get('adt'):
+            out += _variant_edges(b, t['dest']['l'], idx, depth + 1, conveyors)   # Err stays Err, Ok stays Ok
     return out
 
 
@@ -526,4 +530,33 @@ def run(facts, cg):
                 finding('R-AWAITED', b.q, 'never-polled:%s' % (callee_q(t).split('::')[-1] if 'q' in t['callee'] else 'call'),
                         'the future returned at %s is dropped without being awaited: the operation never happens' % t['loc'])
     instances.append({'rule': 'R-AWAITED', 'obligations': nf, 'futures_checked': nf})
+
+    # ---------------------------------------------------------------- R-DEBUGONLY: nothing the program relies on happens inside a debug_assert
+    # `debug_assert!(map.insert(k, v).is_none())` keeps the tests (debug builds) green and drops the insert from the release
+    # binary.  The gate is the `cfg!(debug_assertions)` branch the macro expands to; what the user wrote inside it must not
+    # take anything by `&mut`.
+    n_gates = 0
+    seen_gate = set()
+    for b in facts.original.values():
+        if b.generated or b.crate not in ('bita', 'bitar'):
+            continue
+        for sbi in b.live:
+            sw = b.blocks[sbi]['term']
+            mac = sw.get('mac') or []
+            if sw['k'] != 'switch' or len(mac) < 2 or not mac[0].endswith('cfg') or not mac[1].startswith('debug_assert') or sw['vals'] != [0]:
+                continue
+            n_gates += 1
+            on, off = sw['otherwise'], sw['targets'][0]
+            cdom = b._classic_dominators()
+            region = {x for x in b.live if on in cdom.get(x, ())} if on != off else set()
+            for rbi in sorted(region):
+                t = b.blocks[rbi]['term']
+                if t['k'] != 'call' or t.get('exp') or 'q' not in t['callee']:
+                    continue
+                muts = [a for a in t['args'] if a['k'] in ('copy', 'move') and b.lty(a['pl']['l']).get('k') == 'ref' and b.lty(a['pl']['l']).get('mut')]
+                if muts:
+                    name = callee_q(t).split('::')[-1]
+                    finding('R-DEBUGONLY', b.q, name, 'the call of `%s` at %s takes `&mut` and sits inside a %s!: it is compiled out of release builds, '
+                            'the tests (debug builds) cannot notice' % (name, t['loc'], mac[1]))
+    instances.append({'rule': 'R-DEBUGONLY', 'debug_assert_gates': n_gates})
     return instances, findings
